@@ -272,8 +272,58 @@ pub fn migrate_case(name: &'static str, ver: &'static str) -> Case {
     }
 }
 
+/// Systematic allow-list family: every list of one or two routes drawn from a pool of routes of 1-3 hops
+/// (thorough: the whole pool of 16; quick: a seed-independent pool of 9), against every candidate of <= 2 (3) hops.
+pub fn route_pool(tier: &str) -> Vec<Vec<SwapRoute>> {
+    let al = alphabet();
+    let mut pool: Vec<Vec<SwapRoute>> = vec![];
+    for h in al.iter().take(4) {
+        pool.push(vec![h.clone()]);
+    }
+    let _ = tier;
+    let pairs: &[(usize, usize)] = &[(0, 1), (4, 3), (0, 3), (4, 1), (1, 2), (2, 0), (5, 2), (3, 0)];
+    for (a, b) in pairs {
+        pool.push(vec![al[*a].clone(), al[*b].clone()]);
+    }
+    pool.push(vec![al[0].clone(), al[1].clone(), al[2].clone()]);
+    {
+        pool.push(vec![al[4].clone(), al[1].clone(), al[2].clone()]);
+        pool.push(vec![al[0].clone(), al[3].clone(), al[0].clone()]);
+        pool.push(vec![al[2].clone(), al[0].clone(), al[1].clone()]);
+    }
+    pool
+}
+
 pub fn cases(tier: &str) -> Vec<Case> {
     let mut v = vec![];
+    let pool = route_pool(tier);
+    let cand = candidates(if tier == "thorough" { 4 } else { 3 });
+    let mut lists: Vec<(String, Vec<Vec<SwapRoute>>)> = vec![];
+    for i in 0..pool.len() {
+        for j in i + 1..pool.len() {
+            lists.push((format!("p{i}+{j}"), vec![pool[i].clone(), pool[j].clone()]));
+        }
+    }
+    for (ln, routes) in lists {
+        let ln: &'static str = Box::leak(ln.into_boxed_str());
+        for c in &cand {
+            for exact_in in [true, false] {
+                let endpoint: &'static str = if c.is_empty() {
+                    A
+                } else {
+                    let d = if exact_in { c[0].token_in_denom.clone() } else { c[c.len() - 1].token_out_denom.clone() };
+                    if d == A {
+                        A
+                    } else if d == B {
+                        B
+                    } else {
+                        C
+                    }
+                };
+                v.push(swap_case(ln, routes.clone(), c.clone(), exact_in, "trader", endpoint));
+            }
+        }
+    }
     for name in ["treasury", "staking"] {
         for ver in ["0.4.19", "0.4.20", "0.4.21", "0.3.0", "1.0.0", "garbage"] {
             v.push(migrate_case(name, ver));
